@@ -172,6 +172,45 @@ fn type_or_sub_type_path_starts_with_ident(ty: &Type, ident: &Ident) -> bool {
     visitor.result
 }
 
+/// Collects the associated types of type parameters (`T::A`, `<T as Trait>::A`) mentioned
+/// anywhere inside the given type.
+fn associated_types_of_params(ty: &Type, ty_params: &[Ident]) -> Vec<Type> {
+    struct AssociatedTypes<'a> {
+        found: Vec<Type>,
+        ty_params: &'a [Ident],
+    }
+
+    impl<'ast> Visit<'ast> for AssociatedTypes<'_> {
+        fn visit_type_path(&mut self, i: &'ast TypePath) {
+            let is_projection = match &i.qself {
+                Some(qself) => matches!(
+                    &*qself.ty,
+                    Type::Path(p) if p.qself.is_none()
+                        && p.path.get_ident().map_or(false, |id| self.ty_params.contains(id))
+                ),
+                None => {
+                    i.path.segments.len() > 1
+                        && i.path.segments.first().map_or(false, |segment| {
+                            segment.arguments.is_none() && self.ty_params.contains(&segment.ident)
+                        })
+                }
+            };
+            if is_projection {
+                self.found.push(Type::Path(i.clone()));
+                return;
+            }
+            visit::visit_type_path(self, i);
+        }
+    }
+
+    let mut visitor = AssociatedTypes {
+        found: Vec::new(),
+        ty_params,
+    };
+    visitor.visit_type(ty);
+    visitor.found
+}
+
 /// Returns all types that must be added to the where clause with a boolean
 /// indicating if the field is [`scale::Compact`] or not.
 fn collect_types_to_bind(
@@ -188,16 +227,21 @@ fn collect_types_to_bind(
                 &&
                 // Only add a bound if the type uses a generic.
                 type_contains_idents(&field.ty, ty_params)
-                &&
-                // Remove all remaining types that start/contain the input ident
-                // to not have them in the where clause.
-                !type_or_sub_type_path_starts_with_ident(&field.ty, input_ident)
             })
-            .map(|f| {
-                (
+            .flat_map(|f| {
+                // Types that start/contain the input ident are not added to the where clause
+                // as a whole (the bound would be self-referential); the associated types of
+                // type parameters they mention still need their own bound.
+                if type_or_sub_type_path_starts_with_ident(&f.ty, input_ident) {
+                    return associated_types_of_params(&f.ty, ty_params)
+                        .into_iter()
+                        .map(|ty| (ty, false))
+                        .collect::<Vec<_>>();
+                }
+                vec![(
                     utils::maybe_encoded_as(f).unwrap_or_else(|| f.ty.clone()),
                     utils::is_compact(f),
-                )
+                )]
             })
             .collect()
     };
